@@ -57,6 +57,10 @@ def units(tier, seed):
     for k, d in enumerate(descs):
         if k % 3 == 2:
             d["maximize_type"] = ("npbool", "int")[(k // 3) % 2]
+    # beyond the small scope (hmsmc/scale.py): run once each
+    from ..scale import big_population_worlds, long_history_worlds
+
+    descs += big_population_worlds(tier, seed) + long_history_worlds(tier, seed)
     us = [{"kind": "run", "descs": c} for c in chunks(descs, 12)]
     # a second memoising problem (use_cache=True) with ANOTHER objective in the same process, same seed and box: the first
     # one's values must not be served to it
